@@ -109,6 +109,16 @@ def gen_case(streams, tier):
                 "mid": [s.getrandbits(1) for _ in range(n_mid)], "raw": [s.getrandbits(1) for _ in measured]}
     n = w.choice([1, 1, 2, 2, 2])
     ops = []
+
+    def angle():
+        # measurement angles that are exact multiples of pi / 2 are where a measurement axis coincides
+        # with a Pauli axis (and where sign conventions are easiest to get wrong)
+        import math
+
+        if w.random() < 0.3:
+            return w.choice([math.pi, -math.pi, 3 * math.pi, 0.0, math.pi / 2, -math.pi / 2, 2 * math.pi])
+        return qgen.rand_angle(w)
+
     for _ in range(w.randint(1, 4)):
         r = w.random()
         q = w.randrange(n)
@@ -117,16 +127,17 @@ def gen_case(streams, tier):
         elif r < 0.30:
             ops.append(["S", [q], []])
         elif r < 0.48:
-            ops.append(["RZ", [q], [qgen.rand_angle(w)]])
+            ops.append(["RZ", [q], [angle()]])
         elif r < 0.66:
-            ops.append(["Rot", [q], [qgen.rand_angle(w) for _ in range(3)]])
+            ops.append(["Rot", [q], [angle() for _ in range(3)]])
         elif r < 0.78:
             ops.append([w.choice(["PauliX", "PauliY", "PauliZ"]), [q], []])
         elif n > 1:
             ops.append(["CNOT", w.sample(range(n), 2), []])
         else:
-            ops.append(["RZ", [q], [qgen.rand_angle(w)]])
+            ops.append(["RZ", [q], [angle()]])
     return {"kind": "circuit", "n": n, "ops": ops, "shots": w.choice([2, 2, 3, 4]),
+            "route": w.choice(["inline", "inline", "two_step"]),
             "policy": s.choice(POLICIES), "decide_seed": s.getrandbits(32)}
 
 
@@ -186,8 +197,21 @@ def run_case(case):
 
     if case["kind"] == "offline_tracker":
         from checks import qgen as _qg
-        from pennylane.ftqc.decomposition import _cnot_xz_corrections, _single_xz_corrections
         from pennylane.ftqc.pauli_tracker import get_byproduct_corrections
+
+        # byproduct operators of the measurement patterns, written out from Raussendorf, Browne, Briegel
+        # (PRA 68, 022312, section II and Fig. 2; measurement numbering as there): X^x Z^z with
+        def _single_xz_corrections(op_, m1, m2, m3, m4):
+            if op_.name == "Hadamard":
+                return (m1 ^ m3 ^ m4), (m2 ^ m3)
+            if op_.name == "S":
+                return (m2 ^ m4), (m1 ^ m2 ^ m3 ^ 1)
+            return (m2 ^ m4), (m1 ^ m3)  # general rotation (RZ = RotXZX(0, z, 0))
+
+        def _cnot_xz_corrections(ms_):
+            m1, m2, m3, m4, m5, m6, m8, m9, m10, m11, m12, m13, m14 = ms_
+            return [(m2 ^ m3 ^ m5 ^ m6, m1 ^ m3 ^ m4 ^ m5 ^ m8 ^ m9 ^ m11 ^ 1),
+                    (m2 ^ m3 ^ m8 ^ m10 ^ m12 ^ m14, m9 ^ m11 ^ m13)]
 
         ops_ = _qg.build_ops(case["ops"])
         tape_ = qp.tape.QuantumScript(ops_, [qp.sample(wires=case["measured"])], shots=1)
@@ -247,7 +271,14 @@ def run_case(case):
     sig = {"gates": sorted({o[0] for o in case["ops"]})}
     try:
         (t1,), _ = _ENV["to_gateset"](tape)
-        (t2,), _ = _ENV["to_formalism"](t1, diagonalize_mcms=True)
+        if case.get("route", "inline") == "two_step":
+            # the formalism first (parametric measurements left as they are), then the stand-alone transform
+            # that diagonalises them
+            (t2,), _ = _ENV["to_formalism"](t1)
+            (t2,), _ = qp.ftqc.diagonalize_mcms(t2)
+            counters["route:two_step"] = 1
+        else:
+            (t2,), _ = _ENV["to_formalism"](t1, diagonalize_mcms=True)
     except Exception as e:  # noqa: BLE001
         viol("unexpected_exception", dict(sig, where="conversion", exc=type(e).__name__), {"error": repr(e)[:300]})
         t2 = None
